@@ -38,5 +38,13 @@ Definition c01_case (j : list raw_txn) (impl : option (list (list posting))) : N
     | None => true                       (* rejecting never violates C01 *)
     | Some i => forall2b balanced_b j i && negb (existsb must_reject j)
     end in
+  (* independent of the exact domain: an accepted transaction whose postings all carry their
+     own amount as transaction amount, but whose exact sum is not zero *)
+  let plain_unbalanced :=
+    match impl with
+    | None => false
+    | Some i => existsb (fun ps => forallb (fun p => drepr_eqb (p_txn_amount p) (p_amount p)) ps
+                                   && negb (Z.eqb (zsum (map (fun p => v56 (p_amount p)) ps)) 0)) i
+    end in
   ((if agree then 1 else 0) + (if spec_ok then 2 else 0)
-   + (if forallb rt_in_domain j then 4 else 0))%N.
+   + (if forallb rt_in_domain j then 4 else 0) + (if plain_unbalanced then 8 else 0))%N.
